@@ -243,7 +243,16 @@ func ExecBubble(t *testing.T, prop string, seed uint64, tier string, keep map[in
 			runtime.SetSimSeed(H(seed, "runtime") | 1)
 			r.start = time.Now()
 			r.T = t
-			body(r)
+			func() {
+				defer func() {
+					if p := recover(); p != nil {
+						buf := make([]byte, 16384)
+						n := runtime.Stack(buf, false)
+						res.Panic = fmt.Sprint(p) + "\n" + string(buf[:n])
+					}
+				}()
+				body(r)
+			}()
 			res.SimNanos = int64(time.Since(r.start))
 		})
 	}()
